@@ -22,6 +22,8 @@ type xclause struct {
 	lo, hi               int  // indexes into bounds, -1 = open side
 	okc                  int  // anchor index of a constant temporal predicate object (c.ok == 4)
 	oAtBind              string // constant predicate object with an anchor binding: "x"@[?t]
+	oBound               bool   // constant predicate object with a window: "x"@[olo,ohi]
+	olo, ohi             int
 }
 
 // instants used as window and global bounds, around the two data anchors:
@@ -108,6 +110,16 @@ func (c xclause) text() string {
 	o := "?" + c.o.bind
 	if c.oAtBind != "" {
 		o = "\"" + string([]byte{c.o.cb}) + "\"@[?" + c.oAtBind + "]"
+	} else if c.oBound {
+		o = "\"" + string([]byte{c.o.cb}) + "\"@["
+		if c.olo >= 0 {
+			o += bounds[c.olo].Format(tfmt)
+		}
+		o += ","
+		if c.ohi >= 0 {
+			o += bounds[c.ohi].Format(tfmt)
+		}
+		o += "]"
 	} else if c.o.bind == "" {
 		switch c.ok {
 		case 0:
@@ -210,6 +222,11 @@ func (c xclause) xmatches(d *dspec, e env, g window) bool {
 		}
 		r = verif.And(r, d.ob == c.o.cb)
 		bind(c.oAtBind, val{kind: 3, pa: d.oa})
+	} else if c.oBound {
+		if d.ok != 4 || !(window{c.olo, c.ohi}).contains(anchors[d.oa]) {
+			return false
+		}
+		r = verif.And(r, d.ob == c.o.cb)
 	} else if c.o.bind == "" {
 		if c.ok != d.ok || (c.ok == 4 && c.okc != d.oa) {
 			return false
@@ -479,6 +496,13 @@ var c03XShapes = []xshape{
 	{cs: []xclause{{qclause: qclause{s: bS, p: cA, o: bO, at: "t"}, lo: -1, hi: -1}, {qclause: qclause{s: bZ, p: pos{cb: 'b'}, o: cA}, oAtBind: "t", lo: -1, hi: -1}}, okinds: []int{0, 4}, temporal: true},
 	// 31: ... and the other way round
 	{cs: []xclause{{qclause: qclause{s: bZ, p: pos{cb: 'b'}, o: cA}, oAtBind: "t", lo: -1, hi: -1}, {qclause: qclause{s: bS, p: cA, o: bO, at: "t"}, lo: -1, hi: -1}}, okinds: []int{0, 4}, temporal: true},
+	// an anchored constant predicate under global windows that contain or exclude its instant
+	{cs: []xclause{{qclause: qclause{s: bS, p: cA, o: bO, pk: 1, pa: 0}, lo: -1, hi: -1}}, okinds: []int{0}, temporal: true,
+		global: []window{{-1, 0}, {-1, 1}, {2, -1}, {1, 1}, {0, 4}}},
+	// a predicate window in object position: temporal predicate objects inside the window only
+	{cs: []xclause{{qclause: qclause{s: bS, p: cA, o: cA}, oBound: true, olo: 1, ohi: 2, lo: -1, hi: -1}}, okinds: []int{0, 3, 4}},
+	{cs: []xclause{{qclause: qclause{s: bS, p: cA, o: cA}, oBound: true, olo: -1, ohi: -1, lo: -1, hi: -1}}, okinds: []int{3, 4}},
+	{cs: []xclause{{qclause: qclause{s: bS, p: cA, o: cA}, oBound: true, olo: 3, ohi: -1, lo: -1, hi: -1}}, okinds: []int{3, 4}},
 	// an AT alias on the object joined with the anchor binding of another clause, both orders
 	{cs: []xclause{{qclause: qclause{s: bS, p: bP, o: bO}, oAt: "t", lo: -1, hi: -1}, {qclause: qclause{s: bZ, p: pos{cb: 'b'}, o: pos{bind: "w"}, at: "t"}, lo: -1, hi: -1}}, okinds: []int{0, 4}, temporal: true},
 	{cs: []xclause{{qclause: qclause{s: bZ, p: pos{cb: 'b'}, o: pos{bind: "w"}, at: "t"}, lo: -1, hi: -1}, {qclause: qclause{s: bS, p: cA, o: bO}, oAt: "t", lo: -1, hi: -1}}, okinds: []int{0, 4}, temporal: true},
